@@ -2,7 +2,7 @@
 import ast
 
 from ..model import AnalysisError
-from ..terms import SELF, is_const, show
+from ..terms import SELF, is_const, show, subterms
 from ..codec import EncoderLayout, DecoderLayout, U, pdu_classes, method_of
 from ..codec_cmp import compare_class, enc_items, src_field
 from ..codec_prims import check_primitives
@@ -329,6 +329,40 @@ def check(ctx, as_premise=False):
     okb = big is not None and big[1] == 268435455
     ctx.ob("S7", "PUBLISH rejects a remaining length above 268435455", okb, where=loc(big[2]) if big else "src/mqtt/pdu.py",
            function="mqtt.pdu.PUBLISH.encode", construct="mqtt.pdu.PUBLISH/size-guard", msg="size guard is %s" % (str(big[:2]) if big else None))
+    # ---------------- S3 (API side): every argument of an operation reaches the field its packet is encoded from ----------------
+    # the encoders are exact for the field values they are given; the packet on the wire is the one the caller asked for only if
+    # each argument of connect() / publish() / subscribe() / unsubscribe() is stored into the request that is then encoded
+    from .common import contexts as _contexts
+    API_PDU = {"connect": "CONNECT", "publish": "PUBLISH", "subscribe": "SUBSCRIBE", "unsubscribe": "UNSUBSCRIBE"}
+    n_args = 0
+    for cls in ([] if as_premise else a.protos[1:2]):      # (a clause of C02 itself, not of the encoders' side that C18 builds on)
+        cat = catalogue(a, cls)
+        for op, pdu in sorted(API_PDU.items()):
+            fn = prog.lookup_method(cls, op)
+            pc = mod.classes.get(pdu)
+            if fn is None or pc is None:
+                continue
+            trs = [tr for tr in _contexts(cat) if tr.kind == "API" and tr.name == op]
+            if not trs:
+                continue
+            enc_fields = EncoderLayout(prog, pc).fields_read
+            stored = {}
+            for tr in trs:
+                news = {e.a["obj"] for e in tr.events if e.kind == "NEW" and e.a["cls"] == pc.qual}
+                for e in tr.events:
+                    if e.kind == "SETATTR" and e.a["obj"] in news:
+                        for sub in subterms(e.a["val"]):
+                            if isinstance(sub, tuple) and len(sub) == 2 and sub[0] == "param":
+                                stored.setdefault(sub[1], set()).add(e.a["field"])
+            for prm in [x for x in fn.params if x != "self"]:
+                n_args += 1
+                flds = stored.get(prm, set())
+                ctx.ob("S3", "%s(%s=) is stored into the %s that is encoded" % (op, prm, pdu), bool(flds), where="%s:%d" % (fn.file, fn.node.lineno),
+                       function=fn.qual, construct="%s/argument-dropped/%s" % (fn.qual, prm),
+                       msg="the argument %s of %s() is never stored into the %s request: the packet is encoded from the constructor's default "
+                           "instead of what the caller asked for" % (prm, op, pdu))
+    if not as_premise:
+        ctx.floor("API arguments followed into their requests", n_args, 14)
     # ---------------- S6: stored packets patched at byte 0 with dup<<3 only ----------------
     npatch = 0
     for cls in a.protos[1:]:
